@@ -131,13 +131,29 @@ func TestVerifBoundedParser(t *testing.T) {
 		"legacy parameter":      "match (n) where n.a = {p} return n",
 		"create index":          "create index on :Person(name)",
 		"existential subquery":  "match (n) where exists { match (n)-[]->(m) } return n",
+		"standalone call":       "call db.labels()",
+		"in-query call":         "match (n) call db.labels() yield label return n, label",
+		"bulk import":           "using periodic commit 500 load csv from 'file:///x.csv' as row match (n) return n",
+		"list index":            "match (n) return n.list[1]",
+		"list slice":            "match (n) return n.list[1..2]",
+		"list comprehension":    "match (n) return [x in n.list where x > 1 | x * 2]",
+		"pattern comprehension": "match (n) return [(n)-->(m) | m.name]",
+		"create unique":         "match (a), (b) create unique (a)-[:R]->(b)",
+		"shortest path atom":    "match (a), (b) return shortestPath((a)-[*]->(b))",
 	}
 	for name, q := range unsupported {
 		cases++
-		if m, err := frontend.ParseCypher(frontend.NewContext(), q); err == nil {
-			text, _ := format.RegularQuery(m, false)
-			fail("unsupported construct %q accepted without error: %q is modelled as %q", name, q, text)
-		}
+		func() {
+			defer func() {
+				if r := recover(); r != nil {
+					fail("unsupported construct %q makes the parser panic: %q: %v", name, q, r)
+				}
+			}()
+			if m, err := frontend.ParseCypher(frontend.NewContext(), q); err == nil {
+				text, _ := format.RegularQuery(m, false)
+				fail("unsupported construct %q accepted without error: %q is modelled as %q", name, q, text)
+			}
+		}()
 	}
 	res := map[string]any{"name": "parser", "bound": fmt.Sprintf("%d fixture queries, %d range literal forms, %d unsupported constructs", len(queries), len(rangeCases), len(unsupported)), "cases": cases, "exhaustive": false, "failures": failures}
 	out, _ := json.Marshal(res)
